@@ -13,7 +13,6 @@
 -/
 import Gen.EffR
 import Proofs.Eff
-import Proofs.EffBridge
 import Mathlib.Tactic.Ring
 import Mathlib.Tactic.FieldSimp
 import Mathlib.Tactic.Linarith
@@ -302,23 +301,5 @@ example : gkSea (fun y z => if z then y else 2 * y) (1/4) (1/2) = some (1/2) := 
   rw [gkSea_eq_val_antisymmetrised _ _ _ (by norm_num)]
   rw [gkVal_erbl _ _ _ (by norm_num) (by norm_num), gkVal_erbl _ _ _ (by norm_num) (by norm_num)]
   norm_num
-
-/-! ### the model is what the current source says (second tie, besides the run-time correspondence)
-
-`Gen/EffSrcR.lean` is written by `tools/gen_eff.py` from the Python AST of src/gepard/eff.py on every run. -/
-
-/-- the four Kelly functions and the two dipole functions as written in eff.py equal the model's, for every t -/
-theorem source_form_factors (t : ℝ) :
-    EffSrc.pF1 t = pF1 t ∧ EffSrc.pF2 t = pF2 t ∧ EffSrc.nF1 t = nF1 t ∧ EffSrc.nF2 t = nF2 t ∧
-    EffSrc.dipF1 t = dipF1 t ∧ EffSrc.dipF2 t = dipF2 t :=
-  ⟨EffBridge.pF1_eq t, EffBridge.pF2_eq t, EffBridge.nF1_eq t, EffBridge.nF2_eq t, EffBridge.dipF1_eq t,
-    EffBridge.dipF2_eq t⟩
-
-/-- the particle dispatch as written in eff.py is the model's (`eff_particle_dispatch`): Kelly takes the neutron
-    functions exactly for `in2particle == 'n'` and the proton ones otherwise, the dipole is defined for 'p' only -/
-theorem source_particle_dispatch :
-    EffSrc.kellyF1_when = "n" ∧ EffSrc.kellyF1_then = "_nF1" ∧ EffSrc.kellyF1_else = "_pF1" ∧
-    EffSrc.kellyF2_when = "n" ∧ EffSrc.kellyF2_then = "_nF2" ∧ EffSrc.kellyF2_else = "_pF2" ∧
-    EffSrc.dipF1_when = "p" ∧ EffSrc.dipF2_when = "p" := by decide
 
 end Gep.R.C19
